@@ -13,17 +13,17 @@ from ..drivers import conn as cd
 from . import _conn as K
 
 CLAUSES = ('owned-uncommitted', 'state-lost', 'stale', 'dirty-idle', 'serial', 'leftover', 'closed-joined')
-DEVS = ('InvalidateDoomed', 'LeakUnstored')        # the deviations whose clauses are this property's
+DEVS = ('InvalidateDoomed', 'LeakUnstored', 'AddBeforeJoin', 'ImportNotCreating')        # the deviations whose clauses are this property's
 FOCUS = ('Finish', 'FinishThenFail', 'FailBeforeBegin', 'FailBegun', 'StoreRaises', 'StoreConflict', 'FailStored', 'FailVoted',
-         'CommitSpConflict', 'CommitSpRaises', 'SavepointRaises', 'CommitSpStoreRaises')
+         'CommitSpConflict', 'CommitSpRaises', 'SavepointRaises', 'CommitSpStoreRaises', 'BeginFails', 'AddWhileFailed')
 NEED = ['Modify', 'Link', 'Unlink', 'AddExplicit', 'Load', 'Begin', 'Store', 'Stored', 'Vote', 'Finish', 'Abort', 'Close',
         'Reopen', 'OtherCommit', 'FailBeforeBegin', 'FailBegun', 'StoreRaises', 'StoreConflict', 'FailStored', 'FailVoted',
         'FinishThenFail', 'Savepoint', 'CommitSp', 'SavepointRaises', 'CommitSpRaises', 'CommitSpConflict',
-        'CommitSpStoreRaises']
+        'CommitSpStoreRaises', 'BeginFails', 'AddWhileFailed', 'ImportInTxn', 'Rollback']
 
 
-BUDGET = {'committed-objects': 36000, 'new-objects': 34000, 'with-savepoint': 34000, 'one-object': 30000,
-          'savepoint-commit-fails': 32000}
+BUDGET = {'committed-objects': 30000, 'new-objects': 28000, 'with-savepoint': 28000, 'one-object': 26000,
+          'savepoint-commit-fails': 26000, 'begin-fails-late-add-import': 24000, 'rollback-after-second-savepoint': 16000}
 
 
 def configs(q):
@@ -40,8 +40,14 @@ def configs(q):
     # storage for r or a (second connection) or an injected store failure at the record of r, a or b
     spc = cd.consts(Obj=('a', 'b'), Edges='EdgesFlat', Pre=('a',), MaxSp=1, MaxCommit=1, MaxOther=1, MaxAct=3 if q else 4, MaxTail=1,
                     Ops=('sp', 'other', 'own') if q else ('sp', 'other', 'own', 'load'))
+    # the storage refusing tpc_begin (FileStorage: description > 65535 bytes) and the NEXT commit; Connection.add while
+    # the transaction is in the failed state; importFile inside a transaction that is then aborted / fails
+    late = cd.consts(Obj=('a', 'b'), Edges='EdgesFlat', Pre=('a',), MaxSp=1, MaxCommit=1 if q else 2, MaxAct=3, MaxTail=1,
+                     Ops=('add', 'bf', 'awf', 'sp', 'imp') if q else ('add', 'bf', 'awf', 'sp', 'imp', 'rm', 'own'))
+    # rollback to the first savepoint after a second one wrote a new object, then ownership
+    rb = cd.consts(Obj=('a',), Edges='EdgesFlat', MaxSp=2, MaxCommit=1, MaxAct=5, MaxTail=1, Ops=('add', 'sp'))
     return [('new-objects', new), ('committed-objects', pre), ('one-object', one), ('with-savepoint', sp),
-            ('savepoint-commit-fails', spc)]
+            ('savepoint-commit-fails', spc), ('begin-fails-late-add-import', late), ('rollback-after-second-savepoint', rb)]
 
 
 def run(ctx):
